@@ -410,6 +410,20 @@ func checkEventTables(c *report.Ctx) {
 				defaultErr = an.GlobalOf(e.Vals[0])
 			}
 		}
+		// the validator decided per class of event names (decide.go), however it is written - switch, if-chain, a
+		// read-only table of verdicts looked up with comma-ok; where it depends on the name in another way the
+		// exits read above stand
+		if v, decided := decideErrByName(c, f); decided {
+			accepted, rejected, okShape = map[string]bool{}, map[string]string{}, v.Other != ""
+			defaultErr = v.Other
+			for name, e := range v.For {
+				if e == "" {
+					accepted[name] = true
+				} else {
+					rejected[name] = e
+				}
+			}
+		}
 		var acc []string
 		for k := range accepted {
 			acc = append(acc, k)
